@@ -27,8 +27,9 @@ type opCase struct {
 	// previous contents of the receiver (must not matter): 0 fresh, 1 an inexact quotient (stale Below/Above accuracy),
 	// 2 an infinity, 3 a longer value rounded into it, 4 a negative zero
 	dirty    int
-	noSoil   bool // C10's reference execution: a truly fresh receiver
-	spareCap int  // extra capacity (words) of the buffer of an operand that is also the receiver
+	noSoil   bool  // C10's reference execution: a truly fresh receiver
+	spareCap int   // extra capacity (words) of the buffer of an operand that is also the receiver
+	opSeed   int64 // seed of the generator used while building operands (stale specials)
 }
 
 var (
@@ -155,6 +156,7 @@ func (k *opCase) attrs(r *hx.RNG) {
 	if r.Chance(60) {
 		k.dirty = r.Range(1, 4)
 	}
+	k.opSeed = int64(r.U64() >> 1)
 	k.x, k.y, k.u = inRange(k.x), inRange(k.y), inRange(k.u)
 }
 
@@ -183,17 +185,21 @@ func digitsOf(v oracle.Val) uint {
 
 // exec runs the operation on a fresh receiver with distinct operand variables.
 func (k *opCase) exec() (hx.State, *hx.PanicInfo) {
-	X := hx.Mk(k.x, digitsOf(k.x)+k.xp, k.xm)
+	var or *hx.RNG
+	if k.opSeed != 0 {
+		or = hx.NewRNG(k.opSeed, "operands", 0)
+	}
+	X := hx.MkR(or, k.x, digitsOf(k.x)+k.xp, k.xm)
 	var Y, U *decimal.Decimal
 	if k.arity() >= 2 {
 		if k.sameXY {
 			Y = X
 		} else {
-			Y = hx.Mk(k.y, digitsOf(k.y)+k.yp, k.ym)
+			Y = hx.MkR(or, k.y, digitsOf(k.y)+k.yp, k.ym)
 		}
 	}
 	if k.arity() == 3 {
-		U = hx.Mk(k.u, digitsOf(k.u)+k.up, k.um)
+		U = hx.MkR(or, k.u, digitsOf(k.u)+k.up, k.um)
 	}
 	z := new(decimal.Decimal).SetPrec(uint(k.p)).SetMode(decimal.RoundingMode(k.mode))
 	soil(z, k.dirty)
@@ -790,6 +796,10 @@ func (k *opCase) execShape(part [4]int, prep func() *decimal.Decimal) (got hx.St
 	xp := [4]uint{0, k.xp, k.yp, k.up}
 	xm := [4]int{0, k.xm, k.ym, k.um}
 	ar := k.arity()
+	var or *hx.RNG
+	if k.opSeed != 0 && !k.noSoil {
+		or = hx.NewRNG(k.opSeed, "operands", 0)
+	}
 	vars := map[int]*decimal.Decimal{}
 	for role := 1; role <= ar; role++ {
 		g := part[role]
@@ -797,7 +807,7 @@ func (k *opCase) execShape(part [4]int, prep func() *decimal.Decimal) (got hx.St
 			continue
 		}
 		if g == part[0] {
-			d := hx.Mk(vals[role], uint(k.p), k.mode)
+			d := hx.MkR(or, vals[role], uint(k.p), k.mode)
 			if int64(d.Prec()) != k.p {
 				panic(hx.MkError{Msg: "operand sharing the receiver does not fit the receiver's precision"})
 			}
@@ -814,7 +824,7 @@ func (k *opCase) execShape(part [4]int, prep func() *decimal.Decimal) (got hx.St
 			}
 			vars[g] = d
 		} else {
-			vars[g] = hx.Mk(vals[role], digitsOf(vals[role])+xp[role], xm[role])
+			vars[g] = hx.MkR(or, vals[role], digitsOf(vals[role])+xp[role], xm[role])
 		}
 	}
 	z := vars[part[0]]
